@@ -223,6 +223,14 @@ class Interp:
             return False
         # feasibility pruning uses only the quantifier-free part of the path condition: weaker premises can only
         # keep more paths (sound), and quantified premises make these frequent small queries slow/unstable
+        # syntactic shortcut (sound): a condition that is literally on the path is feasible, one whose negation is
+        # literally on the path is not (pc and e would be contradictory) - saves the solver call for re-tested conditions
+        eid = e.get_id()
+        pcids = {t.get_id() for t in st.pc}
+        if eid in pcids:
+            return True
+        if z3.Not(e).get_id() in pcids or (z3.is_not(e) and e.arg(0).get_id() in pcids):
+            return False
         qf = [t for t in st.pc if not self._has_quant(t)]
         if self._has_quant(e):
             return True
